@@ -216,7 +216,7 @@ def c18(quick, seed=0):
 
 
 # C04: grammatical seeds, well- and ill-typed, used with every option combination
-C04_SOURCES = ['map(Xs, {nil})', 'one(Xs, {nil})', 'map(Xs, {P ? # : nil})', 'A + B', 'A + S', 'Foo', 'A.B', 'Fn()', 'Fn(S)', 'Fn(A)', 'not A', 'len(A)', 'all(A, {#})', 'map(Xs, {#.V})', 'nil', 'nil.V', 'Ptr?.Next?.V', 'Ptr?.V',
+C04_SOURCES = ['Twice(1, 2)', 'Twice()', 'Fn(1, 2)', 'PtrAdd(1, 2)', 'Ptr.Zap(1)', 'Gn(1)', 'Gn(1, 2, 3)', 'map(Xs, {nil})', 'one(Xs, {nil})', 'map(Xs, {P ? # : nil})', 'A + B', 'A + S', 'Foo', 'A.B', 'Fn()', 'Fn(S)', 'Fn(A)', 'not A', 'len(A)', 'all(A, {#})', 'map(Xs, {#.V})', 'nil', 'nil.V', 'Ptr?.Next?.V', 'Ptr?.V',
                'A ? 1 : 2', '[1, 2][S]', '{a: 1}.b', 'M.zz', 'Xs[1:S]', 'S matches "["', 'S matches T', '1 / 0', 'A % 0', 'Fn', 'Twice', 'Twice(2)', 'Twice(A)', 'Ptr.V.X', 'X + 1',
                'P ? nil : 1', 'nil == nil', 'Xs[A]', 'S[A:B]', 'A in M', '1 in M', 'P and A', 'count(Xs, {#})', 'filter(Xs, {# > A})', '1 + 2', '-nil', 'Ptr.Next.V', 'Add(A, B)', 'A + 1.5',
                '{(A): 1}', '[nil, A][0].V', 'S.x', 'M[A]', 'Xs["a"]', 'Fn(1 + 1.5)', 'P ? Ptr : nil', 'len(nil)', 'nil in nil', '1..A', 'Xs[:]']
